@@ -5,16 +5,15 @@
    own interpretation (a disagreement is a tool error, never a verdict about the code). *)
 EXTENDS JDFSem, Json, IOUtils
 Progs == ndJsonDeserialize(IOEnv.PROGS)
-VARIABLE i
-Init == i = 0
-Step == i < Len(Progs) /\ i' = i + 1
-Done == i = Len(Progs) /\ UNCHANGED i
+VARIABLES i, res
+Analyse(p) == LET cp == Compile(p) IN
+              [name |-> p.name, valid |-> WellFormed(p) /\ Consistent(p), n |-> Cardinality(cp.space),
+               startup |-> Cardinality({t \in cp.space : cp.preds[t] = {}}), final |-> SeqFinalAsSeq(p, cp)]
+Init == i = 0 /\ res = [name |-> "", valid |-> TRUE, n |-> 0, startup |-> 0, final |-> <<>>]
+Step == i < Len(Progs) /\ i' = i + 1 /\ res' = Analyse(Progs[i + 1])
+Done == i = Len(Progs) /\ UNCHANGED <<i, res>>
 Next == Step \/ Done
-Spec == Init /\ [][Next]_i
-Cur == Progs[i]
-Valid == i > 0 => (WellFormed(Cur) /\ Consistent(Cur))
-Emit == i > 0 => LET cp == Compile(Cur) IN
-                 PrintT(<<"VH", ToJson([name |-> Cur.name, n |-> Cardinality(cp.space),
-                                          startup |-> Cardinality({t \in cp.space : cp.preds[t] = {}}),
-                                          final |-> SeqFinalAsSeq(Cur, cp)])>>)
+Spec == Init /\ [][Next]_<<i, res>>
+Valid == res.valid
+Emit == i > 0 => PrintT(<<"VH", ToJson(res)>>)
 =============================================================================
